@@ -63,6 +63,20 @@ Definition find_decl (ts : list ctydecl) (n : cident) : option ctydecl :=
 Definition find_cxtor (d : ctydecl) (x : cident) : option cxtorsig :=
   find (fun s => cident_eqb (cxname s) x) (ctxtors d).
 
+(* the clauses of a (co)match against the xtors of its type, positionally: prdcns field, xtor name,
+   parameter chiralities and types *)
+Fixpoint clauses_match (side : cchi) (n : cident) (cls : list fsclause) (xs : list cxtorsig) : option string :=
+  match cls, xs with
+  | [], [] => None
+  | FsClause c' x ctx _ :: cr, sg :: xr =>
+      fensure (cchi_eqb c' side) "clause with the wrong prdcns field"
+      ?> fensure (cident_eqb x (cxname sg))
+                 ("clause " ++ show_cident x ++ " where " ++ show_cident (cxname sg) ++ " is expected")
+      ?> fensure (fparams_ok ctx (cxargs sg)) ("clause " ++ show_cident x ++ ": parameters do not match the signature")
+      ?> clauses_match side n cr xr
+  | _, _ => Some ("xcase at " ++ show_cident n ++ ": number of clauses differs from the number of xtors")
+  end.
+
 Section Check.
 Variable data codata : list ctydecl.
 Variable defs : list fsdef.
@@ -115,18 +129,12 @@ Fixpoint check_term (G : cctx) (side : cchi) (ty : cty) (t : fsterm) {struct t} 
              | None => Some ("xcase: " ++ show_cident n ++ " is no " ++
                              (match side with CPrd => "codata" | CCns => "data" end) ++ " type")
              | Some d =>
-                 (fix go (cls : list fsclause) (xs : list cxtorsig) {struct cls} : option string :=
-                    match cls, xs with
-                    | [], [] => None
-                    | FsClause c' x ctx body :: cr, sg :: xr =>
-                        fensure (cchi_eqb c' side) "clause with the wrong prdcns field"
-                        ?> fensure (cident_eqb x (cxname sg))
-                                   ("clause " ++ show_cident x ++ " where " ++ show_cident (cxname sg) ++ " is expected")
-                        ?> fensure (fparams_ok ctx (cxargs sg)) ("clause " ++ show_cident x ++ ": parameters do not match the signature")
-                        ?> check_stmt (app ctx G) body
-                        ?> go cr xr
-                    | _, _ => Some ("xcase at " ++ show_cident n ++ ": number of clauses differs from the number of xtors")
-                    end) cls (ctxtors d)
+                 clauses_match side n cls (ctxtors d)
+                 ?> (fix go (cls : list fsclause) {struct cls} : option string :=
+                       match cls with
+                       | [] => None
+                       | FsClause _ _ ctx body :: cr => check_stmt (app ctx G) body ?> go cr
+                       end) cls
              end
          end
   end
@@ -155,6 +163,16 @@ Fixpoint nodup_by {X} (eqb : X -> X -> bool) (l : list X) : bool :=
   end.
 Definition cont_name_fs : cident := ("_Cont", 0%N).
 
+Fixpoint check_defs (p : fsprog) (l : list fsdef) : option string :=
+  match l with
+  | [] => None
+  | d :: r =>
+      fensure (nodup_by N.eqb (cids (fsdctx d))) ("def " ++ show_cident (fsdname d) ++ ": duplicate parameter id")
+      ?> match check_stmt (fspdata p) (fspcodata p) (fspdefs p) (fsdctx d) (fsdbody d) with
+         | Some m => Some ("def " ++ show_cident (fsdname d) ++ ": " ++ m)
+         | None => check_defs p r
+         end
+  end.
 Definition check_fs (p : fsprog) : option string :=
   let ts := app (fspdata p) (fspcodata p) in
   fensure (chi_ok_fsprog p) "prdcns / polarity fields inconsistent"
@@ -162,16 +180,7 @@ Definition check_fs (p : fsprog) : option string :=
   ?> fensure (negb (existsb (fun t => cident_eqb (ctname t) cont_name_fs) ts)) "_Cont used as a type name"
   ?> fensure (forallb (fun t => nodup_by cident_eqb (map cxname (ctxtors t))) ts) "duplicate xtor name within a type"
   ?> fensure (nodup_by cident_eqb (map fsdname (fspdefs p))) "duplicate definition name"
-  ?> (fix go (l : list fsdef) : option string :=
-        match l with
-        | [] => None
-        | d :: r =>
-            fensure (nodup_by N.eqb (cids (fsdctx d))) ("def " ++ show_cident (fsdname d) ++ ": duplicate parameter id")
-            ?> match check_stmt (fspdata p) (fspcodata p) (fspdefs p) (fsdctx d) (fsdbody d) with
-               | Some m => Some ("def " ++ show_cident (fsdname d) ++ ": " ++ m)
-               | None => go r
-               end
-        end) (fspdefs p).
+  ?> check_defs p (fspdefs p).
 Definition wt_fs (p : fsprog) : bool := match check_fs p with None => true | Some _ => false end.
 
 (* ---------- unique binders along every path ---------- *)
